@@ -46,6 +46,8 @@ LightOK(m, o) ==
     /\ Chk("num",      o.num = Num(m))
     /\ Chk("faces",    o.ids = Sorted(faces[m]))
     /\ Chk("iterate",  o.iter = Sorted(faces[m]))
+    \* IterateSorted with "smaller id first": every face exactly once, in that order (ids as delivered)
+    /\ Chk("itersorted", o.iters = Sorted(faces[m]))
     /\ Chk("contains", o.cont = Sorted(faces[m]))
     /\ Chk("min",      o.min = MeshMin(m))
     /\ Chk("max",      o.max = MeshMax(m))
